@@ -2,7 +2,7 @@
 from vlib import mprop
 from vlib.mirsmt import c06
 
-ENCODED = ["Machine::execute_switch_on_term (SwitchOnConstant arm: key passed to IndexMap::get)",
+ENCODED = ["every function that looks a cell up in a SwitchOnConstant table (execute_switch_on_term, next_clause_applicable) and MachineState::switch_on_constant_key",
            "CodeOffsets::index_constant (keys entered per clause constant)",
            "indexing::constant_key_alternatives"]
 ASSUME = ["cell model: kind in {fixnum, bignum cell, rational cell}, denoted integer, arena "
